@@ -626,7 +626,11 @@ def run_cli(col, max_chunks):
                 col.count("cli_menu_without_exact_zero")
             ref = (a, b)
 
-            for theta_files, label in ((([one_fn]), "one-file"), (halves, "two-files")):
+            # the same two files under names whose given order is not their lexicographic order (chain 9 before chain 10)
+            renamed = [os.path.join(tmp, f"chain{cfg[:4]}_9.h5"), os.path.join(tmp, f"chain{cfg[:4]}_10.h5")]
+            for src, dst in zip(halves, renamed):
+                shutil.copyfile(src, dst)
+            for theta_files, label in ((([one_fn]), "one-file"), (halves, "two-files"), (renamed, "two-files-9-then-10")):
                 for n_chunks in range(1, max_chunks + 1):
                     files = []
                     base = {"kind": "cli", "config": cfg, "thetas": label, "n_chunks": n_chunks}
@@ -687,7 +691,7 @@ def run_cli(col, max_chunks):
                                 continue
                             if len(covered) < 6:
                                 col.violation(f"{PROP}|densify|incomplete-accepted", f"CLI chunk files {list(sub)} of {n_chunks} were densified although pairs are missing", dict(base, seq=list(sub)))
-        col.sample({"cli": {"n_thetas": 4, "configs": ["distinct", "zero-at-(2,0)"], "theta_files": ["one", "two"],
+        col.sample({"cli": {"n_thetas": 4, "configs": ["distinct", "zero-at-(2,0)"], "theta_files": ["one", "two", "two named chain_9, chain_10 (given order != sorted order)"],
                             "reference_lower_triangle_last_config": [a[i, j] for i in range(4) for j in range(i)]}})
     finally:
         sys.argv = argv0
